@@ -506,6 +506,69 @@ def rule_r7(chk, F, c, cg):
         visit(b["body"], False, p, b["file"])
     r.floor("runtime writes to managed lock words", n, 1)
 
+def rule_r8(chk, F, c, cg):
+    """A condition variable on which threads *other than the owner* wait can have several waiters at once (any
+    number of threads may join the same thread).  The notifier that makes the waited-for state final must wake them
+    all; notify_one wakes one joiner and leaves the others parked for ever."""
+    r = chk.rule("C09.R8", "runtime condition variables that foreign threads wait on (the waiting method is invoked on "
+                           "a DoraThread that is not the caller's own) are only ever signalled with notify_all")
+    waits, notifies = {}, {}
+    for p in sorted(cg.bodies):
+        if not p.startswith(RT + "threads::DoraThread::"):
+            continue
+        B = cg.body(p)
+        defs = None
+        for x in B.calls:
+            nm = x.name or ""
+            if "Condvar" not in nm or not x.args:
+                continue
+            kind = "wait" if last(nm).startswith("wait") else (last(nm) if last(nm).startswith("notify") else None)
+            if kind is None:
+                continue
+            defs = defs or cfg.simple_defs(B)
+            o = cfg.origin(B, x.args[0], defs)
+            flds = tuple(q for q in (o[2] if o[0] == "param" else []) if q.startswith(".") and not q[1:].isdigit())
+            if not flds:
+                continue
+            owner = p.split("::{closure")[0]
+            (waits if kind == "wait" else notifies).setdefault(flds, []).append((owner, kind, x.where()))
+    r.floor("DoraThread condition variables with a waiter", len(waits), 2)
+    for flds, ws in sorted(waits.items()):
+        # who calls the waiting method, and on which receiver?
+        foreign = []
+        own = 0
+        for (wfn, _k, _w) in ws:
+            for g in sorted(cg.redges.get(wfn, ())):
+                G = cg.body(g)
+                if G is None:
+                    continue
+                gdefs = None
+                for call in G.calls:
+                    if call.name != wfn or not call.args:
+                        continue
+                    gdefs = gdefs or cfg.simple_defs(G)
+                    o = cfg.origin(G, call.args[0], gdefs)
+                    is_own = o[0] == "call" and last(cfg.callee_name(cfg.callee_of(o[1]["f"])) or "") == "current_thread"
+                    if is_own:
+                        own += 1
+                    else:
+                        foreign.append("%s (%s)" % (g, call.where()))
+        key = "DoraThread%s" % "".join(flds)
+        ns = notifies.get(flds, [])
+        r.instance(key, sample={"waiters": [w[0] for w in ws], "foreign_callers": foreign[:3], "own_callers": own,
+                                "notifies": [(n[0], n[1]) for n in ns]})
+        if not foreign:
+            continue
+        for (nfn, kind, where) in ns:
+            if kind != "notify_all":
+                r.violation("%s:%s:%s-with-foreign-waiters" % (nfn, "".join(flds), kind),
+                            "threads other than the owner wait on `%s` (e.g. %s), so several can be blocked at once; "
+                            "`%s` wakes one of them and the rest never return although the state they wait for is "
+                            "final (a second thread joining the same thread hangs for ever)" % (
+                                "".join(flds), foreign[0], kind), where)
+        if not ns:
+            r.violation("%s:no-notifier" % key, "nobody signals `%s`" % "".join(flds), ws[0][2])
+
 
 def run(chk, F):
     c = F.crate("dora_runtime")
@@ -517,6 +580,7 @@ def run(chk, F):
     rule_r5(chk, F)
     rule_r6(chk, F, cg)
     rule_r7(chk, F, c, cg)
+    rule_r8(chk, F, c, cg)
     chk.assumptions += [
         "decides ordering/atomicity shapes; mutual exclusion and absence of lost wake-ups over all interleavings of "
         "the lock-word protocol are not decided (model checking)",
